@@ -6,7 +6,9 @@ Setting. `c : Curve` are the constructor arguments of `EcCurve`; points are the 
 (`Pt.inf` or `Pt.aff x y` with UNREDUCED integers). The specification is Mathlib's group
 `(W c).Point` of the Weierstrass curve `W c : y² = x³ + a x + b` over `ZMod c.p`, and
 `toPoint c : Pt → (W c).Point` is the abstraction function (reduce the coordinates mod `p`).
-Hypotheses: `[Fact c.p.Prime]` (validated per run by gmpy2.is_prime, see harness/corr/c11.py) and
+Hypotheses: `[Fact c.p.Prime]` (for the named curves: PROVED by kernel-checked Pratt certificates,
+`curve_primes_certified` / Props/C11Primes.lean, except for the numbers in `curve_primes_uncertified` —
+currently none —, which would only be validated per run by gmpy2.is_prime, harness/corr/c11.py) and
 `c.Good` (`p ≠ 2`, `4a³ + 27b² ≢ 0`), which `generator_of_paramsOK` derives from the evaluated check
 `paramsOK` for the nine named curves. Every theorem is for ALL on-curve inputs: ∞, equal points,
 opposite points, coordinates that are only congruent mod `p`, every integer scalar.
@@ -17,6 +19,7 @@ counter-examples for the pinned `Add` / `Double` / `BatchDouble`.
 import ParanoidModel.Proofs.EcCurves
 import ParanoidModel.Proofs.EcOrder
 import ParanoidModel.Proofs.EcTable
+import ParanoidModel.Props.C11Primes
 namespace Paranoid.C11
 open Paranoid Paranoid.Ec WeierstrassCurve
 
@@ -219,6 +222,62 @@ theorem secp256k1_params : secp256k1.paramsOK = true := secp256k1_paramsOK
 theorem brainpoolP256r1_params : brainpoolP256r1.paramsOK = true := brainpoolP256r1_paramsOK
 theorem brainpoolP384r1_params : brainpoolP384r1.paramsOK = true := brainpoolP384r1_paramsOK
 theorem brainpoolP512r1_params : brainpoolP512r1.paramsOK = true := brainpoolP512r1_paramsOK
+
+/-! ### primality of the curve constants is not a hypothesis: kernel-checked Pratt certificates
+(Proofs/Pratt.lean, Proofs/PrattCurves.lean, Props/C11Primes.lean) for 18 of the 18 numbers. Not
+certified (`C11Primes.uncertified`): none. -/
+
+theorem curve_primes_certified :
+    Nat.Prime secp256r1.p ∧ Nat.Prime secp256r1.n ∧
+    Nat.Prime secp384r1.p ∧ Nat.Prime secp384r1.n ∧
+    Nat.Prime secp192r1.p ∧ Nat.Prime secp192r1.n ∧
+    Nat.Prime secp224r1.p ∧ Nat.Prime secp224r1.n ∧
+    Nat.Prime secp521r1.p ∧ Nat.Prime secp521r1.n ∧
+    Nat.Prime secp256k1.p ∧ Nat.Prime secp256k1.n ∧
+    Nat.Prime brainpoolP256r1.p ∧ Nat.Prime brainpoolP256r1.n ∧
+    Nat.Prime brainpoolP384r1.p ∧ Nat.Prime brainpoolP384r1.n ∧
+    Nat.Prime brainpoolP512r1.p ∧ Nat.Prime brainpoolP512r1.n :=
+  ⟨C11Primes.secp256r1_p_prime, C11Primes.secp256r1_n_prime,
+   C11Primes.secp384r1_p_prime, C11Primes.secp384r1_n_prime,
+   C11Primes.secp192r1_p_prime, C11Primes.secp192r1_n_prime,
+   C11Primes.secp224r1_p_prime, C11Primes.secp224r1_n_prime,
+   C11Primes.secp521r1_p_prime, C11Primes.secp521r1_n_prime,
+   C11Primes.secp256k1_p_prime, C11Primes.secp256k1_n_prime,
+   C11Primes.brainpoolP256r1_p_prime, C11Primes.brainpoolP256r1_n_prime,
+   C11Primes.brainpoolP384r1_p_prime, C11Primes.brainpoolP384r1_n_prime,
+   C11Primes.brainpoolP512r1_p_prime, C11Primes.brainpoolP512r1_n_prime⟩
+
+/-- the numbers that remain a hypothesis are exactly those the regenerated certificate table
+reports as not certified. -/
+theorem curve_primes_uncertified :
+    (Consts.prattStatus.filter fun t => !t.2.2.1).map (fun t => (t.1, t.2.1)) =
+      [] := C11Primes.uncertified_complete
+
+/-- hypothesis-free: on the 9 curves with both numbers certified, `G` has order exactly `n` in
+Mathlib's group of the elliptic curve `W c` over the field `ZMod p`. -/
+theorem generator_order_certified :
+    addOrderOf (toPoint secp256r1 secp256r1.g) = secp256r1.n ∧
+    addOrderOf (toPoint secp384r1 secp384r1.g) = secp384r1.n ∧
+    addOrderOf (toPoint secp192r1 secp192r1.g) = secp192r1.n ∧
+    addOrderOf (toPoint secp224r1 secp224r1.g) = secp224r1.n ∧
+    addOrderOf (toPoint secp521r1 secp521r1.g) = secp521r1.n ∧
+    addOrderOf (toPoint secp256k1 secp256k1.g) = secp256k1.n ∧
+    addOrderOf (toPoint brainpoolP256r1 brainpoolP256r1.g) = brainpoolP256r1.n ∧
+    addOrderOf (toPoint brainpoolP384r1 brainpoolP384r1.g) = brainpoolP384r1.n ∧
+    addOrderOf (toPoint brainpoolP512r1 brainpoolP512r1.g) = brainpoolP512r1.n :=
+  ⟨C11Primes.secp256r1_generator_order, C11Primes.secp384r1_generator_order,
+   C11Primes.secp192r1_generator_order, C11Primes.secp224r1_generator_order,
+   C11Primes.secp521r1_generator_order, C11Primes.secp256k1_generator_order,
+   C11Primes.brainpoolP256r1_generator_order, C11Primes.brainpoolP384r1_generator_order,
+   C11Primes.brainpoolP512r1_generator_order⟩
+
+theorem curves_elliptic_certified :
+    (W secp256r1).IsElliptic ∧ (W secp384r1).IsElliptic ∧ (W secp192r1).IsElliptic ∧
+    (W secp224r1).IsElliptic ∧ (W secp521r1).IsElliptic ∧ (W secp256k1).IsElliptic ∧
+    (W brainpoolP256r1).IsElliptic ∧ (W brainpoolP384r1).IsElliptic ∧ (W brainpoolP512r1).IsElliptic :=
+  ⟨C11Primes.secp256r1_elliptic, C11Primes.secp384r1_elliptic, C11Primes.secp192r1_elliptic,
+   C11Primes.secp224r1_elliptic, C11Primes.secp521r1_elliptic, C11Primes.secp256k1_elliptic,
+   C11Primes.brainpoolP256r1_elliptic, C11Primes.brainpoolP384r1_elliptic, C11Primes.brainpoolP512r1_elliptic⟩
 
 /-- the factory holds exactly these nine curves; the ten binary-field `CurveType`s map to `None`. -/
 theorem curve_factory_names : Consts.ecCurveNames =
